@@ -68,6 +68,8 @@ type Run struct {
 	nontrivial map[string]bool
 	Evals      int
 	notes      []string
+
+	divergences []string // runs the model could not follow although their outcome was fine
 }
 
 func NewRun(prop, level string) *Run {
